@@ -148,7 +148,7 @@ namespace options
             raise<parsing_error>("a toggle cannot be given a value: ", name());
         }
 
-        if (arg.has_prefix())
+        if (arg.has_prefix() && arg.name_without_prefix() == name())
         {
             if (!reversable_)
             {
